@@ -78,9 +78,8 @@ pub fn codec(ctx: &mut Ctx) {
         if let Some(h) = re.strip_prefix("ok ") {
             let b = crate::util::unhex(h).unwrap();
             let again = ans(catch(move || libpna::verif::fhed_from_bytes(&b)), |(a, b, k, c, e, m, n)| format!("{a}.{b}.{k}.{c}.{e}.{m}:{}", hexw(n.as_bytes())));
-            // stability: decoding the re-encoding gives the same header (major is written as minor by the encoder)
-            let (a_maj_eq_min, _) = (p[0] == p[1], ());
-            if a_maj_eq_min && again != a {
+            // stability: decoding the re-encoding gives the same header, whatever the version bytes
+            if again != a {
                 ctx.violation("C15", "FHED decode(encode(decode(bytes))) != decode(bytes)", json!({"payload":hex(&p),"first":a,"again":again}));
             }
         }
